@@ -561,6 +561,7 @@ func (q *BufferedChannelQueue[T]) freeNodePool() {
 }
 
 func (q *BufferedChannelQueue[T]) loadFromPool() {
+	verifPoint("bq.loader.start", q)
 	for range q.loadWorkerCh {
 		verifPoint("bq.loader.woken", q)
 
